@@ -197,17 +197,25 @@ pub fn verif_write_json<'value>(writer: &mut Writer, root: &EventRecord<'value>)
 #[verifier::external_body]
 pub struct FileReport<'value> { _p: &'value u8 }
 impl<'value> FileReport<'value> {
-    // contract of the real function: U-combine (group `report`)
+    // ghost view: how many per-rules-file reports were combined into this one (the contents are U-combine's business)
+    pub uninterp spec fn parts(&self) -> nat;
+    // contract of the real function: U-combine (group `report`): the union of both reports
     #[verifier::external_body]
-    pub fn combine(&mut self, report: FileReport<'value>) { unimplemented!() }
+    pub fn combine(&mut self, report: FileReport<'value>)
+        ensures final(self).parts() == old(self).parts() + report.parts(),
+    { unimplemented!() }
 }
 // stands for `FileReport { name: &each.name, ..Default::default() }`
 #[verifier::external_body]
-pub fn verif_file_report<'value>(name: &'value String) -> (r: FileReport<'value>) { unimplemented!() }
+pub fn verif_file_report<'value>(name: &'value String) -> (r: FileReport<'value>)
+    ensures r.parts() == 0,
+{ unimplemented!() }
 
 // contract of the real function: U-simpl (group `report`)
 #[verifier::external_body]
-pub fn simplified_json_from_root<'value>(root: &EventRecord<'value>) -> (r: Result<FileReport<'value>>) { unimplemented!() }
+pub fn simplified_json_from_root<'value>(root: &EventRecord<'value>) -> (r: Result<FileReport<'value>>)
+    ensures r is Ok ==> r->Ok_0.parts() == 1,
+{ unimplemented!() }
 
 #[verifier::external_body]
 pub struct SarifReport { _p: u8 }
@@ -252,28 +260,51 @@ impl<'reporter> CommonStructuredReporter<'reporter> {
     ensures
         res is Ok ==> code_ok(old(self).exit_code, any_fail(old(self).rules@, old(self).data@, old(self).data@.len() as int), res->Ok_0),
 {
-        let mut records = vec![];
-        for each in it: &self.data
+        let mut records: Vec<FileReport> = vec![];
+        let verif_s0 = &self.data;
+let mut verif_i0: usize = 0;
+while verif_i0 < verif_s0.len()
         invariant
             self.data == old(self).data, self.rules == old(self).rules, self.output == old(self).output,
-            it.seq().len() == self.data@.len(),
-            forall|i: int| 0 <= i < it.seq().len() ==> *(#[trigger] it.seq()[i]) == self.data@[i],
-            code_ok(old(self).exit_code, any_fail(self.rules@, self.data@, it.index@ as int), self.exit_code),
+            verif_s0 == &self.data,
+            verif_i0 <= self.data@.len(),
+            code_ok(old(self).exit_code, any_fail(self.rules@, self.data@, verif_i0 as int), self.exit_code),
+            // C09: one report per data file so far, each the union of one report per rules file
+            records@.len() == verif_i0,
+            forall|k: int| 0 <= k < records@.len() ==> (#[trigger] records@[k]).parts() == self.rules@.len(),
+        decreases self.data@.len() - verif_i0,
 {
+let each = &verif_s0[verif_i0];
+verif_i0 = verif_i0 + 1;
+
                         let mut file_report: FileReport = verif_file_report(&each.name);
 
-                        let ghost outer_i = it.index@ as int;
-for (rule, _) in it: &self.rules
+            let verif_s1 = &self.rules;
+let mut verif_i1: usize = 0;
+while verif_i1 < verif_s1.len()
             invariant
                 self.data == old(self).data, self.rules == old(self).rules, self.output == old(self).output,
-                it.seq().len() == self.rules@.len(),
-                forall|j: int| 0 <= j < it.seq().len() ==> *(#[trigger] it.seq()[j]) == self.rules@[j],
-                code_ok(old(self).exit_code, any_fail(self.rules@, self.data@, outer_i) || row_fail(self.rules@, *each, it.index@ as int), self.exit_code),
+                verif_s0 == &self.data,
+                1 <= verif_i0 <= self.data@.len(),
+                *each == self.data@[verif_i0 - 1],
+                verif_s1 == &self.rules,
+                verif_i1 <= self.rules@.len(),
+                code_ok(old(self).exit_code, any_fail(self.rules@, self.data@, verif_i0 - 1) || row_fail(self.rules@, *each, verif_i1 as int), self.exit_code),
+                file_report.parts() == verif_i1,
+                records@.len() == verif_i0 - 1,
+                forall|k: int| 0 <= k < records@.len() ==> (#[trigger] records@[k]).parts() == self.rules@.len(),
+            decreases self.rules@.len() - verif_i1,
 {
+let (rule, _) = &verif_s1[verif_i1];
+verif_i1 = verif_i1 + 1;
+
                 let mut root_scope = root_scope(rule, Rc::new(each.path_value.clone()));
 
-                if Status::PASS != eval_rules_file(rule, &mut root_scope, Some(&each.name))? {
-                    self.exit_code = FAILURE_STATUS_CODE;
+                match eval_rules_file(rule, &mut root_scope, Some(&each.name))? {
+                    Status::FAIL => self.exit_code = FAILURE_STATUS_CODE,
+                    
+                    Status::SKIP => continue,
+                    Status::PASS => {}
                 }
 
                 let root_record = root_scope.reset_recorder().extract();
